@@ -144,6 +144,36 @@ theorem bounded_value_never_changes {α : Type} (pre ext : List (List (κ × α)
   | nil => rfl
   | cons w vs ih => simpa using ih
 
+/-- Operators that keep a `BoundedValue` bound (`filter`, and `map` / `filter_map` through
+`EraseMonotonic`; `first()` itself ends in a `map`): whatever function `g` of the fixed value decides
+presence and the new value, once the derived entry of a key is present it never changes. -/
+theorem bounded_value_filterMap_never_changes {α β : Type} (g : α → Option β)
+    (pre ext : List (List (κ × α))) (k : κ) (u : β)
+    (h : (lookup (firstAfter pre) k).bind g = some u) :
+    (lookup (firstAfter (pre ++ ext)) k).bind g = some u := by
+  cases hl : lookup (firstAfter pre) k with
+  | none => rw [hl] at h; cases h
+  | some v =>
+    rw [bounded_value_never_changes pre ext k v hl]
+    rw [hl] at h
+    exact h
+
+/-- `map` on a `MonotonicValue` / `MonotonicKeys` keyed singleton erases the value promise
+(`EraseMonotonic = MonotonicKeys`) but keys still never disappear -/
+theorem erased_map_keys_never_disappear {α β γ : Type} (init : β) (f : β → α → β) (m : β → γ)
+    (pre ext : List (List (κ × α))) (k : κ)
+    (h : ((lookup (keyedAfter init f pre) k).map m).isSome) :
+    ((lookup (keyedAfter init f (pre ++ ext)) k).map m).isSome := by
+  rw [Option.isSome_map] at h ⊢
+  exact keys_never_disappear init f pre ext k h
+
+/-- and the erased value really may go down (why the result type is not `MonotonicValue`):
+`value_counts().map(|c| c % 2)` -/
+theorem erased_map_value_can_decrease :
+    lookup ((keyedAfter 0 (fun c (_ : Int) => c + 1) [[(1, 9)]]).map fun kv => (kv.1, kv.2 % 2)) (1 : Int) = some 1 ∧
+    lookup ((keyedAfter 0 (fun c (_ : Int) => c + 1) [[(1, 9)], [(1, 9)]]).map fun kv => (kv.1, kv.2 % 2)) (1 : Int) = some 0 := by
+  decide
+
 /-- and the value is the first one delivered for the key -/
 theorem bounded_value_is_first {α : Type} (hist : List (List (κ × α))) (k : κ) :
     lookup (firstAfter hist) k = (group k hist.flatten).head? := by
